@@ -241,6 +241,55 @@ func runC18(outDir string, seed int64, tier string) {
 					}
 				}
 			}
+			// current_op/3 as a relation: called with the name and the specifier bound (and with the priority
+			// bound as well) it selects from the enumerated table, for every specifier
+			if strings.HasPrefix(na.coq, "NAtom ") {
+				nm := strings.ReplaceAll(strings.TrimSuffix(strings.TrimPrefix(na.coq, "NAtom \""), "\""), "\"\"", "\"")
+				specs := []string{"xfx", "xfy", "yfx", "fy", "fx", "xf", "yf"}
+				prios := map[int64]bool{}
+				for _, e := range after {
+					if e.n == nm {
+						prios[e.p] = true
+					}
+				}
+				var want []string
+				for _, sp := range specs {
+					for _, e := range after {
+						if e.n == nm && e.s == sp {
+							want = append(want, fmt.Sprintf("%s-%d", sp, e.p))
+							for pv := range prios {
+								if pv == e.p {
+									want = append(want, fmt.Sprintf("%s+%d", sp, pv))
+								}
+							}
+						}
+					}
+				}
+				sort.Strings(want)
+				var pl []string
+				for pv := range prios {
+					pl = append(pl, fmt.Sprint(pv))
+				}
+				sort.Strings(pl)
+				q := fmt.Sprintf("findall('-'(S,P), (member(S, [xfx,xfy,yfx,fy,fx,xf,yf]), current_op(P, S, %s)), L1), findall('+'(S,P), (member(P, [%s]), member(S, [xfx,xfy,yfx,fy,fx,xf,yf]), current_op(P, S, %s)), L2), append(L1, L2, L) .", quoteAtom(nm), strings.Join(pl, ","), quoteAtom(nm))
+				o2 := runQuery(p, 1, []string{"L"}, q)
+				var got []string
+				if len(o2.Answers) == 1 {
+					t := o2.Answers[0]["L"]
+					for t.K == 'c' && t.S == "." && len(t.Args) == 2 {
+						e := t.Args[0]
+						if e.K == 'c' && len(e.Args) == 2 {
+							got = append(got, fmt.Sprintf("%s%s%d", e.Args[0].S, e.S, e.Args[1].I))
+						}
+						t = t.Args[1]
+					}
+				}
+				sort.Strings(got)
+				if len(o2.Answers) != 1 || strings.Join(got, " ") != strings.Join(want, " ") {
+					sum.Failures = append(sum.Failures, failure{ID: id, Class: "op:current_op-with-bound-arguments-differs-from-the-table", Input: desc,
+						Observed: strings.Join(got, " "), Expected: strings.Join(want, " ") + "   (query: " + q + ")"})
+				}
+			}
 			inf, post := map[string]bool{}, map[string]bool{}
 			slots := map[string]int{}
 			for _, e := range after {
@@ -297,7 +346,7 @@ func runC18(outDir string, seed int64, tier string) {
 			sum.Samples = append(sum.Samples, texts)
 		}
 	}
-	sum.Rule = "histories of 1-15 op/3 calls from the bootstrap table: priorities in and out of range, unbound and non-integer; all specifiers, invalid and unbound ones; single names and lists (with duplicates, invalid members, partial and improper lists), the special names ',' '|' '[]' '{}' and existing operators; after every call the outcome (success or the ISO error) and the whole table as enumerated by current_op/3 are compared with the model, the invariants are checked on the enumerated table, and the reader is probed; distinct by history text; every history is non-trivial"
+	sum.Rule = "histories of 1-15 op/3 calls from the bootstrap table: priorities in and out of range, unbound and non-integer; all specifiers, invalid and unbound ones; single names and lists (with duplicates, invalid members, partial and improper lists), the special names ',' '|' '[]' '{}' and existing operators; after every call the outcome (success or the ISO error) and the whole table as enumerated by current_op/3 are compared with the model, the invariants are checked on the enumerated table, current_op/3 is called with the name and each specifier bound (and each priority bound) and must select from that table, and the reader is probed; distinct by history text; every history is non-trivial"
 	header := "From Coq Require Import ZArith List String.\nFrom PV Require Import Model.OpTable Model.OpCheck.\nImport ListNotations.\nOpen Scope Z_scope.\nOpen Scope string_scope.\n"
 	shard := 100
 	nf := 0
